@@ -1227,7 +1227,17 @@ def run_c18(ctx):
     if len(cases) > cap:
         ctx.notes.append("a seeded sample of %d of the %d enumerated add histories is replayed (every history is model-checked by TLC)" % (cap, len(cases)))
         cases = ctx.rng.sample(cases, cap)
-    run_histories(ctx, cases)
+    # a sub-proposition of the added rule coincides with one the configurator already has, one of the two being the tagged non-default
+    # branch of a defaulted group; the new rule's id sorts before / after the old rule's (all of these histories are replayed)
+    p_, q_, r_, x_ = LEAF("p"), LEAF("q"), LEAF("r"), LEAF("x")
+    CfgR = _cc("Cfg", _R("Imply", x_, _R("Any", p_, r_), id="R2"), id="cfgr")
+    CfgX = _cc("Cfg", dict(_cc("ccXor", p_, q_, r_, id="R5"), d="q"), id="cfgx")
+    co_rules = [dict(_cc("ccXor", p_, q_, r_, id="R1"), d="q"), dict(_cc("ccXor", p_, q_, r_, id="R9"), d="q"), dict(_cc("ccAny", p_, q_, r_, id="R1"), d="q"),
+                _R("Imply", x_, _R("Any", p_, r_), id="R1"), _R("Imply", x_, _R("Any", p_, r_), id="R9"), _R("All", _R("Any", p_, r_), x_, id="R0")]
+    st2 = api_histories(ctx, "API_add_coincide", [(CfgR, CfgX)], ["add", "default_prios", "select"], 2, co_rules)
+    c2 = [c for c in history_cases(ctx, st2, [CfgR, CfgX]) if any(x["op"] == "add" for x in c["calls"])]
+    ctx.region("added_rule_shares_a_tagged_sub_proposition", len(c2))
+    run_histories(ctx, cases + c2)
 
 # ------------------------------------------------------------------------------------------- EXTRA: behaviour beyond the listed properties
 def run_extra(ctx):
